@@ -8,7 +8,7 @@ are the specification; nothing of funsor's alignment machinery is used on the or
 import itertools
 import sys
 
-sys.path.insert(0, "/repo")
+sys.path.insert(0, __import__("os").environ.get("VERIF_REPO", "/repo"))
 from collections import OrderedDict  # noqa: E402
 
 import numpy as np  # noqa: E402
